@@ -42,7 +42,7 @@ lane() {
   build() {
     fallback=""
     if ! (cd "$G" && cargo build --release --offline --quiet 2>"$G/build.log"); then
-      (cd "$G" && cargo build --release --offline --quiet --no-default-features 2>"$G/build.log") || return 1
+      (cd "$G" && cargo build --release --offline --quiet --no-default-features --features likelysubtags 2>"$G/build.log") || return 1
       fallback=" [built without the Path wrappers]"
     fi
     # real binaries: built from and run in a scratch copy of the lane's tree (as run.sh does)
